@@ -4,12 +4,14 @@
    derivative matrix) is the solution of the stated ODE in x with the stated initial / boundary data. *)
 From Coq Require Import Reals Lra List.
 From Coquelicot Require Import Coquelicot.
-From P Require Import C15_bell C15_gen C15_model C15_proofs.
+From P Require Import C15_bell C15_gen C15_ref C15_model C15_proofs_fdb C15_proofs_matrix.
 Import ListNotations.
 Open Scope R_scope.
 
-Definition tf_ok (D : R -> Prop) (g ginv g1 g2 g3 : R -> R) : Prop :=
-  forall x, D x -> is_derive g x (g1 x) /\ is_derive g1 x (g2 x) /\ is_derive g2 x (g3 x) /\ g1 x <> 0 /\ ginv (g x) = x.
+Lemma tf_ok_unfold_lemma (D : R -> Prop) (g ginv g1 g2 g3 : R -> R) :
+  tf_ok D g ginv g1 g2 g3 <->
+  (forall x, D x -> is_derive g x (g1 x) /\ is_derive g1 x (g2 x) /\ is_derive g2 x (g3 x) /\ g1 x <> 0 /\ ginv (g x) = x).
+Proof. unfold tf_ok. split; auto. Qed.
 
 (* ---------------------------------------------------------------- order 1 *)
 Lemma transfers_1 (rhs : (R -> R) -> (R -> R) -> (R -> R) -> (R -> R) -> (R -> R) -> (R -> R) -> (R -> R) -> R -> R -> R)
